@@ -256,10 +256,21 @@ def get_ast_type(T):
 # Hash table for ASTs.
 term_ast = dict()
 
+# The theory (and the number of its constants) under which term_ast was filled:
+# the AST of a term depends on the constants of the current theory (names
+# to avoid for bound variables, types that need annotation, overloading).
+term_ast_theory = [None, 0]
+
 ATOM, FUN_APPL, UNARY, BINARY, BINDER = range(5)
 
 def get_ast_term(t):
     """Obtain the abstract syntax tree for a term."""
+    num_consts = len(theory.thy.get_data("term_sig"))
+    if term_ast_theory[0] is not theory.thy or term_ast_theory[1] != num_consts:
+        term_ast.clear()
+        term_ast_theory[0] = theory.thy
+        term_ast_theory[1] = num_consts
+
     key = [t, settings.unicode]
     key = key + t.get_absBindVar()
     key = tuple(key)
